@@ -23,12 +23,19 @@ ASSUMPTIONS = ["guards are boolean combinations of flags that no statement of th
 BUDGET_S = {"quick": 150, "thorough": 1500}
 
 FLAGS = ["c0", "c1", "c2", "c3"]
+NUMS = ["v0", "v1"]
+NUM_VALUES = [0.0, 1.0, float("nan")]
 
 
 @st.composite
 def conds(draw):
-    k = draw(st.integers(0, 13))
+    k = draw(st.integers(0, 16))
     f = lambda: draw(st.sampled_from(FLAGS))   # noqa: E731
+    if k >= 14:
+        # comparisons of numeric variables (valuations include NaN, for which "not a <= b" and "a > b" differ)
+        cmp_ = ["cmp", draw(st.sampled_from(NUMS)), draw(st.sampled_from(["<", "<=", ">", ">=", "==", "!="])),
+                draw(st.sampled_from(NUMS + [1]))]
+        return cmp_ if k == 14 else (["not", cmp_] if k == 15 else ["and", f(), ["not", cmp_]])
     if k == 12:
         return ["not", ["not", f()]]
     if k == 13:
@@ -70,6 +77,7 @@ def phases(draw):
                     # triangular nest: the inner bound uses the outer counter, so the nest order matters
                     hi = [s["loops"][0][0], 1]
                 s["loops"].append([lv, lo, hi])
+            s["uses_counter"] = draw(st.integers(0, 3)) > 0
         stmts.append(s)
     stmts = list(draw(st.permutations(stmts)))
     return {"stmts": stmts}
@@ -86,6 +94,9 @@ def cond_expr(c):
     if isinstance(c, list) and c[0] == "not":
         from pymbolic.primitives import LogicalNot
         return LogicalNot(cond_expr(c[1]))
+    if isinstance(c, list) and c[0] == "cmp":
+        from pymbolic.primitives import Comparison, Variable
+        return Comparison(Variable(c[1]), c[2], Variable(c[3]) if isinstance(c[3], str) else c[3])
     return cond_to_expr(c)
 
 
@@ -113,6 +124,11 @@ def build_statements(case):
                                    condition=c, depends_on=s["deps"]))
         elif k in ("loop1", "loop2"):
             loops = [(l[0], bound(l[1]), bound(l[2])) for l in s["loops"]]
+            if not s.get("uses_counter", True):
+                # the trip count matters although no counter is mentioned
+                out.append(lang.Assign(id=s["id"], assignee="acc_" + s["id"], assignee_subscript=(),
+                                       expression=var("acc_" + s["id"]) + 3, loops=loops, condition=c, depends_on=s["deps"]))
+                continue
             out.append(lang.Assign(id=s["id"], assignee="a_" + s["id"], assignee_subscript=(var(loops[-1][0]),),
                                    expression=var(loops[0][0]) + 1, loops=loops, condition=c, depends_on=s["deps"]))
         elif k == "yield":
@@ -158,10 +174,8 @@ def check_statements(stmts, metamorphic=True):
     declared_loops = {s.id: frozenset((l[0], str(l[1]), str(l[2])) for l in getattr(s, "loops", []) or [])
                       for s in stmts}
     nonnop = {s.id for s in stmts if type(s).__name__ != "Nop"}
-    if len(flags) > 8:
-        vals = [dict(zip(flags, bits)) for bits in itertools.islice(itertools.product([False, True], repeat=len(flags)), 256)]
-    else:
-        vals = [dict(zip(flags, bits)) for bits in itertools.product([False, True], repeat=len(flags))]
+    domains = [NUM_VALUES if f in NUMS else [False, True] for f in flags]
+    vals = [dict(zip(flags, bits)) for bits in itertools.islice(itertools.product(*domains), 256)]
     for val in vals:
         try:
             tr = astwalk.trace(ast, val)
